@@ -423,7 +423,12 @@ func (dr *DialogueRunner) RestoreAt(snapshot *Snapshot) error {
 		return fmt.Errorf("dialogue does not contain a node with title [%s]", snapshot.CurrentNode)
 	}
 
-	dr.visitedNodes = snapshot.VisitedNodes
+	// the runner gets its own copies: neither the snapshot nor other runners restored from it
+	// may change when this runner moves on
+	dr.visitedNodes = make(map[string]int, len(snapshot.VisitedNodes))
+	for node, count := range snapshot.VisitedNodes {
+		dr.visitedNodes[node] = count
+	}
 	dr.variableStorer.Clear()
 	for variable, value := range snapshot.Variables {
 		if value.Boolean != nil {
@@ -468,10 +473,19 @@ func (dr *DialogueRunner) ConvertAndAddCommand(commandID string, command any) er
 // Snapshot returns the state of the dialogue runner as of the last time a node was entered.
 // It can then be used to later restore the state of the dialogue runner.
 func (dr *DialogueRunner) Snapshot() *Snapshot {
+	// copies, so that the snapshot is a value of its own that later steps cannot change
+	variables := make(map[string]variable.Value, len(dr.variableSnapshot))
+	for variable, value := range dr.variableSnapshot {
+		variables[variable] = value
+	}
+	visitedNodes := make(map[string]int, len(dr.visitedNodes))
+	for node, count := range dr.visitedNodes {
+		visitedNodes[node] = count
+	}
 	return &Snapshot{
-		Variables:    dr.variableSnapshot,
+		Variables:    variables,
 		CurrentNode:  dr.currentNode,
-		VisitedNodes: dr.visitedNodes,
+		VisitedNodes: visitedNodes,
 	}
 }
 
